@@ -267,15 +267,20 @@ def prove_functions(spec_modules, keys, tier="quick", procs=16, lemma_groups=())
             rep["obligations"].append({"name": f"{fname}/spec-attach", "status": "drift", "detail": r["drift"], "time": 0})
             continue
         n_real = 0
+        # a return / loop body / precondition is vacuous only if EVERY path reaching it is infeasible
+        groups = {}
         for o in r["obligations"]:
             if o["expect"] == "refutable":
                 covers += 1
-                if o["status"] == "vacuous":
-                    vac += 1
-                    rep["defects"].append(f"vacuity: {o['name']} hypotheses unsatisfiable")
+                base = o["name"].split("#")[0] if "cover@" in o["name"] else o["name"]
+                groups.setdefault(base, []).append(o["status"])
                 continue
             n_real += 1
             rep["obligations"].append(o)
+        for base, sts in groups.items():
+            if all(x == "vacuous" for x in sts):
+                vac += 1
+                rep["defects"].append(f"vacuity: {base} unreachable on every path (hypotheses unsatisfiable)")
         if n_real == 0:
             rep["defects"].append(f"{fname}: zero obligations generated")
     rep["obligations"].extend(lem_res)
